@@ -21,16 +21,29 @@ Definition f_three : f64 := of_bits 0x4008000000000000.
 Definition GRID_OFFSET : f64 := of_bits 0x3FF8000000000000. (* 1.5 *)
 Definition GRID_SCALE  : f64 := of_bits 0x4010000000000000. (* 4.0 *)
 
-(* one axis of `cuboid`: returns (wall_lo, wall_hi, grid_anchor, grid_inverse_width) *)
-Definition cuboid_axis (anchor width : f64) (tripled : bool) : f64 * f64 * f64 * f64 :=
-  let anchor1 := if tripled then fsub anchor width else anchor in
-  let width1 := if tripled then fmul width f_three else width in
-  (anchor1, fadd anchor1 width1,
-   fsub anchor1 (fmul GRID_OFFSET width1), fdiv f_one (fmul GRID_SCALE width1)).
+(* one axis of `cuboid`, first part: the (possibly tripled) wall box: (anchor1, width1) *)
+Definition box_axis (anchor width : f64) (tripled : bool) : f64 * f64 :=
+  (if tripled then fsub anchor width else anchor, if tripled then fmul width f_three else width).
 
 (* which axes are tripled for a periodic box of the given dimensionality *)
 Definition tripled_axis (periodic : bool) (dim : Z) (axis : Z) : bool :=
   periodic && (axis <? dim).
+
+(* f64::max on finite values: the larger one (ties: either; they are equal as reals) *)
+Definition fmax (a b : f64) : f64 :=
+  match b64_compare a b with Some Lt => b | _ => a end.
+
+(* the common scale of the active axes (isotropic grid): max width over the active axes;
+   an unused axis keeps its own width *)
+Definition scale_widths (dim : Z) (w0 w1 w2 : f64) : f64 * f64 * f64 :=
+  if dim =? 1 then (w0, w1, w2)
+  else if dim =? 2 then let m := fmax w0 w1 in (m, m, w2)
+  else let m := fmax (fmax w0 w1) w2 in (m, m, m).
+
+(* grid parameters of one axis: (wall_lo, wall_hi, grid_anchor, grid_inverse_width) *)
+Definition cuboid_axis (anchor1 width1 scale_w : f64) : f64 * f64 * f64 * f64 :=
+  (anchor1, fadd anchor1 width1,
+   fsub anchor1 (fmul GRID_OFFSET width1), fdiv f_one (fmul GRID_SCALE scale_w)).
 
 (* the value in [1,2) whose mantissa is the grid coordinate *)
 Definition tval (ganchor ginv x : f64) : f64 := fadd f_one (fmul (fsub x ganchor) ginv).
@@ -43,15 +56,19 @@ Definition t_in_range (t : f64) : bool :=
   Z.eqb (Z.shiftr (to_bits t) 52) 1023.
 
 (* whole-box interface on bit patterns, as used by the correspondence check:
-   input  anchor/width bits per axis, periodic, dim, position bits per axis
+   input  anchor/width bits per axis (3 axes), periodic, dim, position bits per axis
    output per axis (bits of t, grid coordinate, in-range flag) *)
 Definition iloc_case (periodic : bool) (dim : Z) (anchor width pos : list Z) : list (Z * Z * bool) :=
-  let fix go (axis : Z) (a w p : list Z) :=
-    match a, w, p with
-    | a0 :: a', w0 :: w', p0 :: p' =>
-      let '(_, _, ga, gi) := cuboid_axis (of_bits a0) (of_bits w0) (tripled_axis periodic dim axis) in
-      let t := tval ga gi (of_bits p0) in
-      (to_bits t, Z.land (to_bits t) mantissa_mask, t_in_range t) :: go (axis + 1) a' w' p'
-    | _, _, _ => []
-    end in
-  go 0 anchor width pos.
+  match anchor, width, pos with
+  | [a0; a1; a2], [w0; w1; w2], [p0; p1; p2] =>
+    let '(b0, v0) := box_axis (of_bits a0) (of_bits w0) (tripled_axis periodic dim 0) in
+    let '(b1, v1) := box_axis (of_bits a1) (of_bits w1) (tripled_axis periodic dim 1) in
+    let '(b2, v2) := box_axis (of_bits a2) (of_bits w2) (tripled_axis periodic dim 2) in
+    let '(s0, s1, s2) := scale_widths dim v0 v1 v2 in
+    map (fun '(b, v, sw, p) =>
+           let '(_, _, ga, gi) := cuboid_axis b v sw in
+           let t := tval ga gi (of_bits p) in
+           (to_bits t, Z.land (to_bits t) mantissa_mask, t_in_range t))
+        [(b0, v0, s0, p0); (b1, v1, s1, p1); (b2, v2, s2, p2)]
+  | _, _, _ => []
+  end.
